@@ -141,7 +141,7 @@ pub fn scenario_set(tier: Tier, with_loads: bool) -> Vec<Scenario> {
             for gap in gaps {
                 let bauds: Vec<usize> = if rich { tier.pick(vec![1, 2], vec![0, 1, 2, 3, 4]) } else { vec![1] };
                 for baud in bauds {
-                    let min_slot: u16 = [100, 100, 200, 300, 1000][baud];
+                    let min_slot: u16 = crate::w2::MIN_SLOT[baud];
                     for slot_bits in [min_slot, min_slot.max(300)] {
                         if slot_bits == min_slot && min_slot >= 300 && baud != 4 {
                             // same value twice
@@ -187,6 +187,27 @@ pub fn scenario_set(tier: Tier, with_loads: bool) -> Vec<Scenario> {
             }
         }
     }
+    // baud sweep: every baud rate of the stack (the oracles use the nominal rates of w2::BAUDS, so a
+    // slip in the library's rate table shows as a pause/time-out violation; found by a seeded change)
+    for baud in 0..BAUDS.len() {
+        let min_slot = crate::w2::MIN_SLOT[baud];
+        let sets: Vec<Vec<u8>> = tier.pick(vec![vec![2], vec![1, 4]], vec![vec![2], vec![0], vec![1, 4], vec![0, 5], vec![0, 2, 5]]);
+        for addrs in sets {
+            // Tslot/256 at the minimum slot time is a poll every 0.4 .. 4 bit times: fine enough for the
+            // stack's own idle-time arithmetic (not the poll grid) to decide when it transmits
+            let fine: Vec<Vec<i64>> = if addrs.len() == 1 || tier == Tier::Thorough { vec![vec![256]] } else { vec![] };
+            for divs in tier.pick(vec![vec![16]], vec![vec![16], vec![4], vec![16, 4]]).into_iter().chain(fine) {
+                for slot_bits in tier.pick(vec![min_slot], vec![min_slot, min_slot.max(300) + 11]) {
+                    let loads: Vec<Vec<Load>> = if with_loads { vec![vec![Load::None], vec![Load::SrdAlways(40)]] } else { vec![vec![Load::None]] };
+                    for load in loads {
+                        v.push(Scenario { addrs: addrs.clone(), hsa: 6, gap: 1, baud, slot_bits, ttr: None, divs: divs.clone(), phases: vec![0, 1, 2], deaf: false, loads: load, late: vec![], responders: vec![(40, 0)] });
+                    }
+                }
+            }
+        }
+    }
+    let mut seen = std::collections::HashSet::new();
+    v.retain(|sc| seen.insert(sc.to_json().to_string()));
     v
 }
 
